@@ -32,12 +32,19 @@ Params ==
   \cup [f : {"tern"}, c : 1..Len(Small), a : 1..Len(Small), b : 1..Len(Small)]
   \cup [f : {"ternx"}, c : 1..Len(TernX)]
   \cup [f : {"path"}, b : Bases, a1 : Acc \cup {"-"}, a2 : Acc \cup {"-"}, c : 0..11]
+  \* an access on a PARENTHESISED and / or / ternary: the parentheses decide first, the access applies to what they yield
+  \* (the operand that was not chosen is not looked at); `(e).a` is not in the documented grammar: where the engine
+  \* refuses it as a syntax error nothing is demanded, where it accepts it this is what it means
+  \cup [f : {"pacc"}, a : Acc, o : {"or", "and"}, l : Bases, r : Bases]
+  \cup [f : {"pacct"}, a : Acc, c : {"m", "n"}, l : Bases, r : Bases]
 AstOf(q) == CASE q.f = "bin1" -> Wrap(Bin(q.o1, Lit(1), Lit(2)), q.u, q.pos)
               [] q.f = "bin2" -> Wrap(Sh2(q.o1, q.o2, q.sh), q.u, q.pos)
               [] q.f = "bin3" -> Wrap(Sh3(q.o1, q.o2, q.o3, q.sh), q.u, 0)
               [] q.f = "tern" -> Tern(Small[q.c], Small[q.a], Small[q.b])
               [] q.f = "ternx" -> TernX[q.c]
               [] q.f = "path" -> Consume(PathOf(q.b, q.a1, q.a2), q.c)
+              [] q.f = "pacc" -> Un(q.a, Bin(q.o, Var(q.l), Var(q.r)))
+              [] q.f = "pacct" -> Un(q.a, Tern(Var(q.c), Var(q.l), Var(q.r)))
 \* parameters that denote the same tree twice are skipped
 Canon(q) == (q.f \in {"bin1", "bin2"} /\ q.u = "-" => q.pos = 0) /\ (q.f = "path" /\ q.a1 = "-" => q.a2 = "-")
 
@@ -59,7 +66,7 @@ RECURSIVE Leaves(_)
 Leaves(e) == CASE e.k = "lit" -> {e.i} [] e.k = "un" -> Leaves(e.e) [] e.k = "bin" -> Leaves(e.l) \cup Leaves(e.r)
                [] e.k = "tern" -> Leaves(e.c) \cup Leaves(e.a) \cup Leaves(e.b) [] OTHER -> {}
 LogSound == done => \A i \in 1..Len(Vals) : LET x == Eval(ast, Vals[i], Env) IN \A j \in 1..Len(x.log) : x.log[j] \in Leaves(ast)
-Emit == done /\ WF(ast) => PrintT(<<"VEC", ToJson([min |-> Unp(ast), full |-> UnpFull(ast), nl |-> Cardinality(Leaves(ast)),
+Emit == done /\ WF(ast) => PrintT(<<"VEC", ToJson([fam |-> q.f, min |-> Unp(ast), full |-> UnpFull(ast), nl |-> Cardinality(Leaves(ast)),
             r |-> [i \in 1..Len(Vals) |-> LET x == Eval(ast, Vals[i], Env) IN [r |-> x.r, v |-> x.v, log |-> x.log, tr |-> Truthy(x.v)]]])>>)
 EmitEnv == (~done /\ q = [f |-> "ternx", c |-> 1]) => PrintT(<<"ENV", ToJson([vals |-> Vals, env |-> Env])>>)
 =============================================================================
